@@ -223,3 +223,8 @@ LEVEL_TEXT = ("Lean theorems about byte-level models of DoubleQuotesToBackTick a
 LEVEL_NOTE = ("Both spellings hand the parser the same text, so no model of the parser is needed. A backslash outside '...'/\"...\" "
               "(e.g. at the end of a backtick identifier) hides the next byte from the bracket scanner: recorded observation.")
 TECHNIQUE = "Lean 4 proof (state-machine simulation over token lists / bracket forests) + byte-string correspondence + metamorphic pairs"
+
+# the text of the functions this property's model mirrors is a regenerated fact (Obligations/PinC17: closed by rfl)
+FACTS = True
+LEAN_TARGETS = list(LEAN_TARGETS) + ["Genql.Obligations.PinC17"]
+THEOREMS = list(THEOREMS) + ["Genql.Obligations.PinC17.pinned_text"]
